@@ -71,6 +71,7 @@ func payload(w, i, n int) []byte {
 	// shaped like the messages hc writes: response / EVENT / keep-alive
 	hdr := []string{"HTTP/1.1 200 OK\r\n", "EVENT/1.0 200 OK\r\n", "HTTP/1.1 204 No Content\r\n"}[(w+i)%3]
 	copy(b, hdr)
+	b[len(b)-1] = byte('0' + w*4 + i) // unique last byte per (writer, write)
 	return b
 }
 
@@ -101,20 +102,25 @@ func judge(wire [][]byte, want [][]byte) (sym, desc string) {
 		return "undecryptable", fmt.Sprintf("frame %d on the wire does not decrypt with the counter of its arrival position (%v): a counter was emitted out of order or reused", ctr, err)
 	}
 	plain := bytes.Join(pts, nil)
-	left := append([][]byte{}, want...)
-	for len(plain) > 0 {
-		found := false
+	// the decrypted stream must be a concatenation of whole payloads (backtracking: payloads may share prefixes)
+	var match func(rest []byte, left [][]byte) ([][]byte, bool)
+	match = func(rest []byte, left [][]byte) ([][]byte, bool) {
+		if len(rest) == 0 {
+			return left, true
+		}
 		for i, p := range left {
-			if bytes.HasPrefix(plain, p) {
-				plain = plain[len(p):]
-				left = append(left[:i], left[i+1:]...)
-				found = true
-				break
+			if bytes.HasPrefix(rest, p) {
+				nl := append(append([][]byte{}, left[:i]...), left[i+1:]...)
+				if l, ok := match(rest[len(p):], nl); ok {
+					return l, true
+				}
 			}
 		}
-		if !found {
-			return "interleaved", "the decrypted stream is not a sequence of whole payloads: frames of different writes are interleaved or a payload is damaged"
-		}
+		return nil, false
+	}
+	left, ok := match(plain, want)
+	if !ok {
+		return "interleaved", "the decrypted stream is not a sequence of whole payloads: frames of different writes are interleaved or a payload is damaged"
 	}
 	if len(left) > 0 {
 		return "missing", fmt.Sprintf("%d payload(s) never reached the wire", len(left))
